@@ -88,37 +88,7 @@ def run(ctx):
     _dead_rejections(ctx, repo)
 
     # ------------------------------------------------------------ R05e
-    co = repo.mod(COLL)
-    pot = co.methods('LatexNodesCollector').get('process_one_token')
-    if pot is None:
-        raise AnalysisError('anchor vanished: process_one_token')
-    closing = {"tok.tok == 'brace_close'": 'closing brace', "tok.tok == 'end_environment'": '\\end',
-               'math': 'closing math delimiter'}
-    dispatch_line = min([i.lineno for i in iter_own(pot) if isinstance(i, ast.If)
-                         and unparse(i.test) == "tok.tok == 'comment'"] or [10 ** 9])
-    seen = set()
-    for i in [i for i in pot.body if isinstance(i, ast.If)]:
-        t = unparse(i.test)
-        key = None
-        if t in closing:
-            key = t
-        elif "tok.tok in ('mathmode_inline', 'mathmode_display')" in t and \
-                'tok.arg not in self.parsing_state._math_delims_info_by_open' in t:
-            key = 'math'
-        if key is None:
-            continue
-        seen.add(key)
-        ok = len(i.body) == 1 and isinstance(i.body[0], ast.Raise) and isinstance(i.body[0].exc, ast.Call) \
-            and call_name(i.body[0].exc) in PARSE_ERRORS and i.lineno < dispatch_line and \
-            kwarg(i.body[0].exc, 'recovery_past_token') is not None
-        ctx.decide('R05e', ok, co, i, 'stray %s raises a parse error before dispatch' % closing[key],
-                   'a stray %s reaching the dispatcher does not unconditionally raise a parse error '
-                   'before any node is produced' % closing[key],
-                   construct='process_one_token: stray ' + closing[key])
-    for key in closing:
-        if key not in seen:
-            ctx.refuted('R05e', co, pot, 'no rejection branch for a stray %s' % closing[key],
-                        construct='process_one_token: stray ' + closing[key])
+    stray_closers(ctx, 'R05e', repo)
     c02.closing_predicates(_Sub(ctx, 'R05e'), repo, 'R05e')
     gm = repo.mod(GEN)
     gp = gm.methods('LatexGeneralNodesParser').get('parse')
@@ -204,6 +174,53 @@ def run(ctx):
         'configuration/protocol raise; crash-construct rules G1-G9 on the reachable functions; '
         'every parse error gets a position that cannot be None and line/column from it; stray '
         'closing tokens and unmet required stop conditions raise.')
+
+
+def stray_closers(ctx, rule, repo):
+    co = repo.mod(COLL)
+    pot = co.methods('LatexNodesCollector').get('process_one_token')
+    if pot is None:
+        raise AnalysisError('anchor vanished: process_one_token')
+    closing = {"tok.tok == 'brace_close'": 'closing brace', "tok.tok == 'end_environment'": '\\end',
+               'math': 'closing math delimiter'}
+    dispatch_line = min([i.lineno for i in iter_own(pot) if isinstance(i, ast.If)
+                         and unparse(i.test) == "tok.tok == 'comment'"] or [10 ** 9])
+    seen = set()
+    for i in [i for i in pot.body if isinstance(i, ast.If)]:
+        t = unparse(i.test)
+        key = None
+        if t in closing:
+            key = t
+        elif "tok.tok in ('mathmode_inline', 'mathmode_display')" in t and \
+                'tok.arg not in self.parsing_state._math_delims_info_by_open' in t:
+            key = 'math'
+            conj = [unparse(v) for v in (i.test.values if isinstance(i.test, ast.BoolOp)
+                                         and isinstance(i.test.op, ast.And) else [i.test])]
+            extra = [c_ for c_ in conj if c_ not in (
+                "tok.tok in ('mathmode_inline', 'mathmode_display')",
+                'tok.arg not in self.parsing_state._math_delims_info_by_open')]
+            if extra:
+                seen.add(key)
+                ctx.refuted(rule, co, i, 'a stray closing math delimiter is rejected only when additionally %s: '
+                            'otherwise the token is handed to the math parser, which cannot open a block with '
+                            'it and consumes nothing -- strict mode reports a confusing error, tolerant mode '
+                            'reads the same token again for ever' % ' and '.join(extra),
+                            construct='process_one_token: stray closing math delimiter')
+                continue
+        if key is None:
+            continue
+        seen.add(key)
+        ok = len(i.body) == 1 and isinstance(i.body[0], ast.Raise) and isinstance(i.body[0].exc, ast.Call) \
+            and call_name(i.body[0].exc) in PARSE_ERRORS and i.lineno < dispatch_line and \
+            kwarg(i.body[0].exc, 'recovery_past_token') is not None
+        ctx.decide(rule, ok, co, i, 'stray %s raises a parse error before dispatch' % closing[key],
+                   'a stray %s reaching the dispatcher does not unconditionally raise a parse error '
+                   'before any node is produced' % closing[key],
+                   construct='process_one_token: stray ' + closing[key])
+    for key in closing:
+        if key not in seen:
+            ctx.refuted(rule, co, pot, 'no rejection branch for a stray %s' % closing[key],
+                        construct='process_one_token: stray ' + closing[key])
 
 
 def _dead_rejections(ctx, repo):
